@@ -651,9 +651,29 @@ let c11 s b =
     | Ok (rt, _) ->
       let ins = List.map (fun v -> let (l, u) = bx.(int_of_nat v) in mk_interval orc l u) vars in
       let (outs, _) = run_interval orc rt t.t_outputs ins in
+      (* atan2 met with both argument intervals exactly zero (every node of the arena evaluated): its result depends on the
+         signs of the zeros, which f32::min / max of two zeros (unspecified in Rust) decide; outside the model *)
+      let atan00 =
+        let n = List.length arena in
+        let all = List.filter (fun i -> match List.nth arena i with NConst _ -> false | _ -> true) (List.init n (fun i -> i)) in
+        match flatten arena (List.map nat_of_int all) with
+        | Err _ -> false
+        | Ok (t2, vars2) ->
+          (match reg_tape_new (nat_of_int 255) t2.t_ops with
+           | Err _ -> false
+           | Ok (rt2, _) ->
+             let ins2 = List.map (fun v -> let (l, u) = bx.(int_of_nat v) in mk_interval orc l u) vars2 in
+             let (o2, _) = run_interval orc rt2 t2.t_outputs ins2 in
+             let tbl = Hashtbl.create 64 in
+             List.iteri (fun k i -> Hashtbl.replace tbl i (List.nth o2 k)) all;
+             let zero i = match List.nth arena i with
+               | NConst c -> let v = int_of_f32 c in v = 0 || v = 0x80000000
+               | _ -> (match Hashtbl.find_opt tbl i with Some (Some iv) -> let z f = let v = int_of_f32 f in v = 0 || v = 0x80000000 in z iv.lo && z iv.hi | _ -> false) in
+             List.exists (fun nd -> match nd with NBinary (bo, l, r) -> bo = BAtan && zero (int_of_nat l) && zero (int_of_nat r) | _ -> false) arena) in
+      if atan00 then Printf.bprintf b "iv ?" else begin
       Printf.bprintf b "iv";
       if List.exists (fun o -> o = None) outs then Printf.bprintf b " panic"
-      else List.iter (function Some i -> Printf.bprintf b " %d %d" (ib i.lo) (ib i.hi) | None -> ()) outs
+      else List.iter (function Some i -> Printf.bprintf b " %d %d" (ib i.lo) (ib i.hi) | None -> ()) outs end
 
 (* ---- C15: bytecode ------------------------------------------------------------ *)
 let imm_bits (f : f32) : z = to_bits f
